@@ -30,22 +30,28 @@ def gen_table(rng):
         return sorted(float(f) for f in rng.sample(FL_POOL, n))
 
     t = {'masses': masses}
+    # one table in five: the values of a mass-tabulated phase do not vary with mass (e.g.
+    # cruise fuel replicated from nominal data); the phase still HAS a mass range
+    flat = rng.random() < 0.2
     cl = fls(2)
     t['climb'] = {'fls': cl, 'masses': masses,
                   'tas': {f: rng.uniform(70, 260) for f in cl},
                   'ff': {}, 'rocd': {}}
     for f in cl:
         ffv = rng.uniform(0.3, 4.0)
+        rov = rng.uniform(0.5, 45.0)
         for m in masses:
             t['climb']['ff'][(f, m)] = ffv
-            t['climb']['rocd'][(f, m)] = rng.uniform(0.5, 45.0)
+            t['climb']['rocd'][(f, m)] = rov if flat else rng.uniform(0.5, 45.0)
     cr = fls(2)
     t['cruise'] = {'fls': cr, 'masses': masses,
                    'tas': {f: rng.uniform(70, 260) for f in cr}, 'ff': {}, 'rocd': {}}
     for f in cr:
+        ffc = rng.uniform(0.2, 3.0)
         for m in masses:
-            t['cruise']['ff'][(f, m)] = rng.uniform(0.2, 3.0)
+            t['cruise']['ff'][(f, m)] = ffc if flat else rng.uniform(0.2, 3.0)
             t['cruise']['rocd'][(f, m)] = 0.0
+    t['mass_independent_values'] = flat
     de = fls(2)
     nom = masses[1]
     t['descent'] = {'fls': de, 'masses': [nom],
